@@ -151,3 +151,264 @@ pub proof fn lemma_merge_associative_with_totally_ordered_conditions<C: PartialO
     requires conditions_totally_ordered::<C>(),
     ensures merge_member(merge_member(a, b), c) == merge_member(a, merge_member(b, c)),
 {}
+
+// ---- C31 kernel: merge_states ------------------------------------------------------------------------------------------------
+pub open spec fn key_seen<K, V>(h: Seq<(K, V)>, k: K) -> bool { exists|i: int| 0 <= i < h.len() && #[trigger] h[i].0 == k }
+// inner-loop invariant of merge_states: the groups of head h visited so far are merged in, the others still stand at hs
+pub open spec fn partial_fold<ID: Hash + Eq, OP, C: PartialOrd>(states: StatesView<ID, OP, C>, hs: Seq<OP>, h: OP, seen: Seq<(ID, GroupMembersState<GroupMember<ID>, C>)>, g: ID, m: GroupMember<ID>) -> Option<MemberState<C>> {
+    fold_member(states, if key_seen(seen, g) { hs.push(h) } else { hs }, g, m)
+}
+pub open spec fn merged_partial<ID: Hash + Eq, OP, C: PartialOrd>(states: StatesView<ID, OP, C>, hs: Seq<OP>, h: OP, seen: Seq<(ID, GroupMembersState<GroupMember<ID>, C>)>, cur: Map<ID, GroupMembersState<GroupMember<ID>, C>>) -> bool {
+    &&& forall|g: ID| #[trigger] cur.contains_key(g) <==> group_in(states, hs, g) || key_seen(seen, g)
+    &&& forall|g: ID, m: GroupMember<ID>| cur.contains_key(g) ==> mget(cur[g].members@, m) == #[trigger] partial_fold(states, hs, h, seen, g, m)
+}
+pub proof fn lemma_fold_push<ID: Hash + Eq, OP, C: PartialOrd>(states: StatesView<ID, OP, C>, hs: Seq<OP>, h: OP, g: ID, m: GroupMember<ID>)
+    ensures fold_member(states, hs.push(h), g, m) == join_member(member_at(states, h, g, m), fold_member(states, hs, g, m)),
+{
+    assert(hs.push(h).drop_last() =~= hs);
+    assert(hs.push(h).last() == h);
+}
+pub proof fn lemma_group_in_push<ID: Hash + Eq, OP, C>(states: StatesView<ID, OP, C>, hs: Seq<OP>, h: OP, g: ID)
+    ensures group_in(states, hs.push(h), g) <==> group_in(states, hs, g) || group_at(states, h, g),
+{
+    let hp = hs.push(h);
+    if group_in(states, hp, g) {
+        let i = choose|i: int| 0 <= i < hp.len() && #[trigger] group_at(states, hp[i], g);
+        if i < hs.len() { assert(hp[i] == hs[i]); assert(group_at(states, hs[i], g)); }
+    }
+    if group_in(states, hs, g) {
+        let i = choose|i: int| 0 <= i < hs.len() && #[trigger] group_at(states, hs[i], g);
+        assert(hp[i] == hs[i]); assert(group_at(states, hp[i], g));
+    }
+    if group_at(states, h, g) { assert(hp[hs.len() as int] == h); assert(group_at(states, hp[hs.len() as int], g)); }
+}
+pub proof fn lemma_fold_none<ID: Hash + Eq, OP, C: PartialOrd>(states: StatesView<ID, OP, C>, hs: Seq<OP>, g: ID, m: GroupMember<ID>)
+    requires !group_in(states, hs, g),
+    ensures fold_member(states, hs, g, m) is None,
+    decreases hs.len(),
+{
+    if hs.len() > 0 {
+        assert(hs.drop_last().push(hs.last()) =~= hs);
+        lemma_group_in_push(states, hs.drop_last(), hs.last(), g);
+        lemma_fold_none(states, hs.drop_last(), g, m);
+    }
+}
+pub proof fn lemma_kv_current_not_seen<K, V>(snap: Seq<(K, V)>, h: Seq<(K, V)>, rem: Seq<(K, V)>, s1: Map<K, V>)
+    requires entries_of_map(snap, s1), h + rem == snap, rem.len() > 0,
+    ensures !key_seen(h, snap[h.len() as int].0), snap[h.len() as int] == rem[0],
+{
+    assert(snap[h.len() as int] == (h + rem)[h.len() as int]);
+    assert forall|i: int| 0 <= i < h.len() implies h[i].0 != snap[h.len() as int].0 by {
+        assert(h[i] == (h + rem)[i]);
+    }
+}
+pub proof fn lemma_key_seen_push<K, V>(h: Seq<(K, V)>, x: (K, V), k: K)
+    ensures key_seen(h.push(x), k) <==> key_seen(h, k) || k == x.0,
+{
+    let h2 = h.push(x);
+    if key_seen(h2, k) { let i = choose|i: int| 0 <= i < h2.len() && #[trigger] h2[i].0 == k; if i < h.len() { assert(h2[i] == h[i]); } }
+    if key_seen(h, k) { let i = choose|i: int| 0 <= i < h.len() && #[trigger] h[i].0 == k; assert(h2[i] == h[i]); }
+    if k == x.0 { assert(h2[h.len() as int] == x); }
+}
+// one step of the inner loop: group x.0 of head h, recorded there as x.1, merged into (or inserted in) cur
+pub proof fn lemma_merge_states_step<ID: Hash + Eq, OP, C: PartialOrd>(states: StatesView<ID, OP, C>, hs: Seq<OP>, h: OP, seen: Seq<(ID, GroupMembersState<GroupMember<ID>, C>)>, x: (ID, GroupMembersState<GroupMember<ID>, C>),
+        cur: Map<ID, GroupMembersState<GroupMember<ID>, C>>, nx: Map<ID, GroupMembersState<GroupMember<ID>, C>>)
+    requires
+        merged_partial(states, hs, h, seen, cur),
+        !key_seen(seen, x.0),
+        states.contains_key(h) && states[h]@.contains_key(x.0) && states[h]@[x.0].members@ == x.1.members@,
+        nx.contains_key(x.0),
+        forall|g: ID| g != x.0 ==> (#[trigger] nx.contains_key(g) <==> cur.contains_key(g)),
+        forall|g: ID| g != x.0 && cur.contains_key(g) ==> #[trigger] nx[g] == cur[g],
+        cur.contains_key(x.0) ==> is_merge_of(x.1.members@, cur[x.0].members@, nx[x.0].members@),
+        !cur.contains_key(x.0) ==> nx[x.0].members@ == x.1.members@,
+    ensures merged_partial(states, hs, h, seen.push(x), nx),
+{
+    let s2 = seen.push(x);
+    assert forall|g: ID| #[trigger] nx.contains_key(g) <==> group_in(states, hs, g) || key_seen(s2, g) by {
+        lemma_key_seen_push(seen, x, g);
+        if g != x.0 { assert(nx.contains_key(g) <==> cur.contains_key(g)); }
+    }
+    assert forall|g: ID, m: GroupMember<ID>| nx.contains_key(g) implies mget(nx[g].members@, m) == #[trigger] partial_fold(states, hs, h, s2, g, m) by {
+        lemma_key_seen_push(seen, x, g);
+        if g == x.0 {
+            lemma_fold_push(states, hs, h, g, m);
+            assert(member_at(states, h, g, m) == mget(x.1.members@, m));
+            if cur.contains_key(g) {
+                assert(mget(cur[g].members@, m) == partial_fold(states, hs, h, seen, g, m));
+                assert(mget(nx[g].members@, m) == merge_at(x.1.members@, cur[g].members@, m));
+            } else {
+                assert(!group_in(states, hs, g));
+                lemma_fold_none(states, hs, g, m);
+            }
+        } else {
+            assert(cur.contains_key(g));
+            assert(nx[g] == cur[g]);
+            assert(mget(cur[g].members@, m) == partial_fold(states, hs, h, seen, g, m));
+        }
+    }
+}
+// end of the inner loop: every group of head h was visited
+pub proof fn lemma_merge_states_head_done<ID: Hash + Eq, OP, C: PartialOrd>(states: StatesView<ID, OP, C>, hs: Seq<OP>, h: OP, seen: Seq<(ID, GroupMembersState<GroupMember<ID>, C>)>, cur: Map<ID, GroupMembersState<GroupMember<ID>, C>>)
+    requires
+        merged_partial(states, hs, h, seen, cur),
+        states.contains_key(h),
+        forall|g: ID| key_seen(seen, g) <==> #[trigger] states[h]@.contains_key(g),
+    ensures merged_heads(states, hs.push(h), cur),
+{
+    assert forall|g: ID| #[trigger] cur.contains_key(g) <==> group_in(states, hs.push(h), g) by { lemma_group_in_push(states, hs, h, g); }
+    assert forall|g: ID, m: GroupMember<ID>| cur.contains_key(g) implies mget(cur[g].members@, m) == #[trigger] fold_member(states, hs.push(h), g, m) by {
+        assert(mget(cur[g].members@, m) == partial_fold(states, hs, h, seen, g, m));
+        if !key_seen(seen, g) { lemma_fold_push(states, hs, h, g, m); assert(member_at(states, h, g, m) is None); }
+    }
+}
+pub proof fn lemma_entries_seen_all<K, V>(s: Seq<(K, V)>, m: Map<K, V>)
+    requires entries_of_map(s, m),
+    ensures forall|k: K| key_seen(s, k) <==> #[trigger] m.contains_key(k),
+{
+    assert forall|k: K| key_seen(s, k) <==> #[trigger] m.contains_key(k) by {
+        if key_seen(s, k) { let i = choose|i: int| 0 <= i < s.len() && #[trigger] s[i].0 == k; }
+    }
+}
+
+// ---- C31: the merged state does not depend on the order in which the heads are enumerated (unconditioned accesses) -----------
+// the merge rule picks the greater of two member states in the order (member_counter, access_counter, lower access level)
+pub open spec fn key_gt<C>(a: MemberState<C>, b: MemberState<C>) -> bool {
+    a.member_counter > b.member_counter || (a.member_counter == b.member_counter && (a.access_counter > b.access_counter
+        || (a.access_counter == b.access_counter && level_rank(a.access.level) < level_rank(b.access.level))))
+}
+pub proof fn lemma_merge_member_picks_the_greater<C: PartialOrd>(a: MemberState<C>, b: MemberState<C>)
+    requires no_conditions(a), no_conditions(b),
+    ensures merge_member(a, b) == (if key_gt(a, b) { a } else { b }), !key_gt(a, b) && !key_gt(b, a) ==> a == b,
+{
+    lemma_access_order_without_conditions(a.access, b.access, a.access);
+    if !key_gt(a, b) && !key_gt(b, a) {
+        assert(level_rank(a.access.level) == level_rank(b.access.level));
+        assert(a.access.level == b.access.level);
+        assert(a.access == b.access);
+    }
+}
+pub open spec fn recorded_without_conditions<ID: Hash + Eq, OP, C>(states: StatesView<ID, OP, C>) -> bool {
+    forall|h: OP, g: ID, m: GroupMember<ID>| (#[trigger] member_at(states, h, g, m)) is Some ==> no_conditions(member_at(states, h, g, m)->Some_0)
+}
+// x is a greatest recorded state of (g, m) among the heads hs (None: no head records one)
+pub open spec fn is_top<ID: Hash + Eq, OP, C>(states: StatesView<ID, OP, C>, hs: Seq<OP>, g: ID, m: GroupMember<ID>, x: Option<MemberState<C>>) -> bool {
+    &&& x is None ==> forall|i: int| 0 <= i < hs.len() ==> (#[trigger] member_at(states, hs[i], g, m)) is None
+    &&& x is Some ==> exists|i: int| 0 <= i < hs.len() && #[trigger] member_at(states, hs[i], g, m) == x
+    &&& x is Some ==> forall|i: int| 0 <= i < hs.len() && (#[trigger] member_at(states, hs[i], g, m)) is Some ==> !key_gt(member_at(states, hs[i], g, m)->Some_0, x->Some_0)
+}
+pub proof fn lemma_fold_is_top<ID: Hash + Eq, OP, C: PartialOrd>(states: StatesView<ID, OP, C>, hs: Seq<OP>, g: ID, m: GroupMember<ID>)
+    requires recorded_without_conditions(states),
+    ensures is_top(states, hs, g, m, fold_member(states, hs, g, m)),
+    decreases hs.len(),
+{
+    if hs.len() > 0 {
+        let pre = hs.drop_last();
+        let acc = fold_member(states, pre, g, m);
+        let x = member_at(states, hs.last(), g, m);
+        let r = fold_member(states, hs, g, m);
+        lemma_fold_is_top(states, pre, g, m);
+        assert forall|i: int| 0 <= i < pre.len() implies pre[i] == hs[i] by {}
+        if acc is Some {
+            let j = choose|j: int| 0 <= j < pre.len() && #[trigger] member_at(states, pre[j], g, m) == acc;
+            assert(member_at(states, hs[j], g, m) == acc);
+        }
+        if x is Some && acc is Some { lemma_merge_member_picks_the_greater(x->Some_0, acc->Some_0); }
+        if r is Some {
+            if r == x { assert(member_at(states, hs[hs.len() - 1], g, m) == r); }
+            assert forall|i: int| 0 <= i < hs.len() && (#[trigger] member_at(states, hs[i], g, m)) is Some implies !key_gt(member_at(states, hs[i], g, m)->Some_0, r->Some_0) by {
+                if i < pre.len() { assert(member_at(states, pre[i], g, m) is Some); }
+            }
+        } else {
+            assert forall|i: int| 0 <= i < hs.len() implies (#[trigger] member_at(states, hs[i], g, m)) is None by {
+                if i < pre.len() { assert(member_at(states, pre[i], g, m) is None); }
+            }
+        }
+    }
+}
+//@ obligation props=C31
+pub proof fn lemma_merged_heads_independent_of_head_order_without_conditions<ID: Hash + Eq, OP, C: PartialOrd>(states: StatesView<ID, OP, C>, hs1: Seq<OP>, hs2: Seq<OP>,
+        r1: Map<ID, GroupMembersState<GroupMember<ID>, C>>, r2: Map<ID, GroupMembersState<GroupMember<ID>, C>>)
+    requires
+        forall|h: OP| hs1.contains(h) <==> hs2.contains(h),      // two enumerations of the same set of heads
+        recorded_without_conditions(states),
+        merged_heads(states, hs1, r1), merged_heads(states, hs2, r2),
+    ensures
+        forall|g: ID| r1.contains_key(g) <==> r2.contains_key(g),
+        forall|g: ID| #[trigger] r1.contains_key(g) ==> r1[g].members@ =~= r2[g].members@,
+{
+    assert forall|g: ID| r1.contains_key(g) <==> r2.contains_key(g) by {
+        if group_in(states, hs1, g) { let i = choose|i: int| 0 <= i < hs1.len() && #[trigger] group_at(states, hs1[i], g); assert(hs1.contains(hs1[i])); let j = choose|j: int| 0 <= j < hs2.len() && hs2[j] == hs1[i]; assert(group_at(states, hs2[j], g)); }
+        if group_in(states, hs2, g) { let i = choose|i: int| 0 <= i < hs2.len() && #[trigger] group_at(states, hs2[i], g); assert(hs2.contains(hs2[i])); let j = choose|j: int| 0 <= j < hs1.len() && hs1[j] == hs2[i]; assert(group_at(states, hs1[j], g)); }
+    }
+    assert forall|g: ID| #[trigger] r1.contains_key(g) implies r1[g].members@ =~= r2[g].members@ by {
+        assert(r2.contains_key(g));
+        assert forall|m: GroupMember<ID>| mget(r1[g].members@, m) == mget(r2[g].members@, m) by {
+            let x = fold_member(states, hs1, g, m);
+            let y = fold_member(states, hs2, g, m);
+            lemma_fold_is_top(states, hs1, g, m);
+            lemma_fold_is_top(states, hs2, g, m);
+            if x is Some {
+                let i = choose|i: int| 0 <= i < hs1.len() && #[trigger] member_at(states, hs1[i], g, m) == x;
+                assert(hs1.contains(hs1[i]));
+                let j = choose|j: int| 0 <= j < hs2.len() && hs2[j] == hs1[i];
+                assert(member_at(states, hs2[j], g, m) is Some);
+                assert(y is Some);
+            }
+            if y is Some {
+                let i = choose|i: int| 0 <= i < hs2.len() && #[trigger] member_at(states, hs2[i], g, m) == y;
+                assert(hs2.contains(hs2[i]));
+                let j = choose|j: int| 0 <= j < hs1.len() && hs1[j] == hs2[i];
+                assert(member_at(states, hs1[j], g, m) is Some);
+                assert(x is Some);
+            }
+            if x is Some && y is Some {
+                let i = choose|i: int| 0 <= i < hs1.len() && #[trigger] member_at(states, hs1[i], g, m) == x;
+                assert(hs1.contains(hs1[i]));
+                let j = choose|j: int| 0 <= j < hs2.len() && hs2[j] == hs1[i];
+                assert(!key_gt(member_at(states, hs2[j], g, m)->Some_0, y->Some_0));
+                let i2 = choose|i: int| 0 <= i < hs2.len() && #[trigger] member_at(states, hs2[i], g, m) == y;
+                assert(hs2.contains(hs2[i2]));
+                let j2 = choose|j: int| 0 <= j < hs1.len() && hs1[j] == hs2[i2];
+                assert(!key_gt(member_at(states, hs1[j2], g, m)->Some_0, x->Some_0));
+                lemma_merge_member_picks_the_greater(x->Some_0, y->Some_0);
+            }
+        }
+        assert forall|m: GroupMember<ID>| r1[g].members@.dom().contains(m) <==> r2[g].members@.dom().contains(m) by {
+            assert(mget(r1[g].members@, m) == mget(r2[g].members@, m));
+        }
+        assert forall|m: GroupMember<ID>| r1[g].members@.contains_key(m) implies r1[g].members@[m] == r2[g].members@[m] by {
+            assert(mget(r1[g].members@, m) == mget(r2[g].members@, m));
+        }
+    }
+}
+
+// "including access conditions" (C31): already for two heads the merged state of one member must not depend on which head is
+// enumerated first. With totally ordered conditions this does NOT hold for the Access order of the code (see known findings).
+//@ obligation props=C31
+pub proof fn lemma_merged_heads_independent_of_head_order_with_totally_ordered_conditions<ID: Hash + Eq, OP, C: PartialOrd>(states: StatesView<ID, OP, C>, h1: OP, h2: OP, g: ID, m: GroupMember<ID>)
+    requires conditions_totally_ordered::<C>(),
+    ensures fold_member(states, seq![h1, h2], g, m) == fold_member(states, seq![h2, h1], g, m),
+{
+    reveal_with_fuel(fold_member, 3);
+    assert(seq![h1, h2].drop_last() =~= seq![h1]); assert(seq![h2, h1].drop_last() =~= seq![h2]);
+    assert(seq![h1].drop_last() =~= Seq::<OP>::empty()); assert(seq![h2].drop_last() =~= Seq::<OP>::empty());
+}
+
+pub proof fn lemma_listed_push<ID, C>(h: Seq<(ID, Access<C>)>, x: (ID, Access<C>))
+    ensures
+        forall|id: ID| listed(h.push(x), id) <==> listed(h, id) || id == x.0,
+        forall|id: ID, a: Access<C>| listed_with(h, id, a) ==> listed_with(h.push(x), id, a),
+        listed_with(h.push(x), x.0, x.1),
+{
+    let h2 = h.push(x);
+    assert forall|id: ID| listed(h2, id) <==> listed(h, id) || id == x.0 by {
+        if listed(h2, id) { let i = choose|i: int| 0 <= i < h2.len() && #[trigger] h2[i].0 == id; if i < h.len() { assert(h2[i] == h[i]); } }
+        if listed(h, id) { let i = choose|i: int| 0 <= i < h.len() && #[trigger] h[i].0 == id; assert(h2[i] == h[i]); }
+        if id == x.0 { assert(h2[h.len() as int] == x); }
+    }
+    assert forall|id: ID, a: Access<C>| listed_with(h, id, a) implies listed_with(h2, id, a) by {
+        let i = choose|i: int| 0 <= i < h.len() && #[trigger] h[i] == (id, a); assert(h2[i] == h[i]);
+    }
+    assert(h2[h.len() as int] == (x.0, x.1));
+}
